@@ -218,6 +218,11 @@ KEYS = [
 ]
 
 
+from ..gen import NASTY as _NASTY  # noqa: E402
+
+KEYS = KEYS + [x for x in _NASTY if x not in KEYS]
+
+
 def key_addressing_pass(res):
     """A key in a query path names exactly that key.  Universe: one point per key of KEYS carrying only that key (as a
     tag and as a field); for every key K, queries on K - spelled with item access, and with attribute access where
